@@ -4,6 +4,7 @@ import (
 	"bytes"
 	"encoding/gob"
 	"fmt"
+	"strings"
 
 	"github.com/valyala/fastjson"
 )
@@ -91,6 +92,30 @@ func (l Link) GetID() ID {
 // GetLink returns the IRI corresponding to the current Link
 func (l Link) GetLink() IRI {
 	return IRI(l.ID)
+}
+
+// Equals verifies if our receiver Link is equal with the "with" Item
+func (l Link) Equals(with Item) bool {
+	if IsNil(with) || !IsLink(with) {
+		return false
+	}
+	result := false
+	_ = OnLink(with, func(w *Link) error {
+		if w == nil {
+			return nil
+		}
+		result = l.ID.Equals(w.ID, false) &&
+			strings.EqualFold(string(l.Type), string(w.Type)) &&
+			l.Href.Equals(w.Href, false) &&
+			l.Rel.Equals(w.Rel, false) &&
+			l.MediaType == w.MediaType &&
+			l.HrefLang == w.HrefLang &&
+			l.Height == w.Height && l.Width == w.Width &&
+			l.Name.Equals(w.Name) &&
+			ItemsEqual(l.Preview, w.Preview)
+		return nil
+	})
+	return result
 }
 
 // GetType returns the Type corresponding to the Mention object
